@@ -728,6 +728,7 @@ class Hypergraph:
                         self._node_attr[n] = self._node_attr_dict_factory()
                     self._node[n].add(idx)
                 self._edge_attr[idx] = self._edge_attr_dict_factory()
+                self._edge_attr[idx].update(attr)
 
                 update_uid_counter(self, idx)
 
